@@ -151,6 +151,59 @@ def h_emit(who, kind):
     return ['emit', 'protected']
 
 
+def h_extend(integ_id, k):
+    """an authentic protected message followed by k ARBITRARY extra octets (header Length untouched): parsing must fail"""
+    from symx import core
+    eng = core.engine()
+    m, c = MODS['message'], MODS['crypto']
+    T = m.Transform
+    hname, hs, ks = INTEG[integ_id]
+    crypto = c.Crypto(c.Cipher(T(T.Type.ENCR, T.EncrId.ENCR_AES_CBC, 256)), eng.sym_bytes('sk_e', 32), c.Integrity(T(T.Type.INTEG, integ_id)),
+                      eng.sym_bytes('sk_a', ks), c.Prf(T(T.Type.PRF, T.PrfId.PRF_HMAC_SHA2_256)), b'p' * 32)
+    msg = m.Message(eng.sym_bytes('spi_i', 8), eng.sym_bytes('spi_r', 8), 2, 0, m.Message.Exchange.INFORMATIONAL, False, False, True,
+                    eng.sym_int('msg_id', 0, 0xFFFFFFFF), [], [m.PayloadVENDOR(eng.sym_bytes('vendor', 3))], crypto=crypto, iv=eng.sym_bytes('iv', 16))
+    data = core.SymBytes.lift(msg.to_bytes())
+    ext = data + eng.sym_bytes('extra', k)
+    try:
+        back = m.Message.parse(ext.lower(), crypto=crypto)
+    except m.IkeSaError:
+        return ['extend', 'rejected']
+    if back.is_protected:
+        return {'class': ['extend'], 'violation': f'an authentic protected message followed by {k} extra octet(s) was accepted as protected'}
+    return ['extend', 'unprotected']
+
+
+def h_error_reply(sit):
+    """a protected request that carries NO payload and cannot be processed: the error response, like every message after IKE_SA_INIT, has nothing
+    outside the Encrypted payload"""
+    from symx import core
+    from . import world
+    eng = core.engine()
+    m = MODS['message']
+    S = MODS['ikesa'].IkeSa.State
+    p = world.Pair()
+    if sit == 'empty_ike_auth':
+        p.send('A', p.send('B', p.init_req()))
+        me, E, peer, exch, mid = p.b, p.B, p.a, 35, 1
+    else:
+        p.establish()
+        me, E, peer = p.b, p.B, p.a
+        exch, mid = {'empty_create_child': 36, 'empty_unknown_exchange': eng.sym_int('exchange', 38, 255)}[sit], peer.my_msg_id
+    req = m.Message(peer.spi_i, peer.spi_r, 2, 0, exch, False, False, True, mid, [], [], crypto=peer.my_crypto)
+    ret = E.call(me.process_message, req.to_bytes())
+    if ret is None:
+        return ['error_reply', 'silent']
+    d = core.SymBytes.lift(ret)
+    P = eng.prove
+    P(d[16] == 46, 'the error response to an empty protected request does not start with the Encrypted payload (something travels in the clear)')
+    sk_len = (d[30] << 8) | d[31]
+    P(sk_len == len(d) - 28, 'something follows (or precedes) the Encrypted payload of the error response in the clear')
+    back = m.Message.parse(ret, crypto=me.my_crypto)
+    if back.payloads:
+        return {'class': ['error_reply'], 'violation': f'the error response carries {len(back.payloads)} payload(s) outside the Encrypted payload'}
+    return ['error_reply', 'protected', len(back.encrypted_payloads)]
+
+
 def h_tamper(k, integ_id, pos_kind, n_clear=0):
     """a datagram whose checksum field is arbitrary: whenever the real parser accepts it, the whole truncated MAC of
     header..ciphertext equals the whole checksum field (so any change of any covered byte needs a MAC collision)"""
@@ -215,6 +268,12 @@ def build_instances(tier):
             for nc in (1, 2):
                 inst.append(Instance(f'accept-implies-MAC blocks={k} integ={integ_id} clear={nc}', h_tamper, (k, integ_id, 0, nc),
                                      must_reach=[('accepted', lambda o: o[0] == 'accepted'), ('rejected', lambda o: o[0] == 'rejected')]))
+    for integ_id in (2, 12, 14):
+        for k in ((1, 16) if tier == 'quick' else (1, 2, 4, 8, 15, 16, 17, 32)):
+            inst.append(Instance(f'extended by {k} octets integ={integ_id}', h_extend, (integ_id, k), must_reach=[('rejected', lambda o: o == ['extend', 'rejected'])]))
+    for sit in ('empty_ike_auth', 'empty_create_child'):
+        inst.append(Instance(f'error response to {sit}', h_error_reply, (sit,), native=common.native_of(h_error_reply),
+                             must_reach=[('protected', lambda o: o[:2] == ['error_reply', 'protected'])]))
     for who in ('A', 'B'):
         for kind in ('request', 'response'):
             inst.append(Instance(f'emitted {kind} of {who} with any exchange type', h_emit, (who, kind),
@@ -235,7 +294,7 @@ def replay_file(path):
     """native replay with the real AES/HMAC: differential test of the same facts on the concrete witness"""
     global MODS
     iname = json.load(open(path)).get('instance', '')
-    if 'other integrity key' in iname or iname.startswith('emitted'):
+    if 'other integrity key' in iname or iname.startswith(('emitted', 'error response', 'extended by')):
         def _ld():
             global MODS
             from . import world
